@@ -98,13 +98,18 @@ def oracle_model(getter, rng, tier_quick, notes):
     man = np.array([np.mean((s[:, 0] <= p[0]) & (s[:, 1] <= p[1])) for p in pts])
     if not np.array_equal(ec, man):
         return ({"clause": "empirical-cdf", "getter": getter}, "empirical_cdf differs from the manual count")
-    # integrates to one (coarse: 1e-3)
+    # the density integrates, over a box, to the fraction of the model's own samples in that box (DKW 1e-12)
     if not tier_quick:
+        box = (0.05, 12.0, 1.0, 25.0)   # hs_lo, hs_hi, tz_lo, tz_hi
         with warnings.catch_warnings():
             warnings.simplefilter("ignore")
-            tot = integrate.dblquad(lambda tz, hs: float(tm.pdf(np.array([[hs, tz]]))[0]), 1e-3, 25, 0.5, 40, epsabs=1e-5)[0]
-        if abs(tot - 1) > 5e-3:
-            return ({"clause": "integral", "getter": getter}, "pdf integrates to %r" % tot)
+            tot = integrate.dblquad(lambda tz, hs: float(tm.pdf(np.array([[hs, tz]]))[0]), box[0], box[1], box[2], box[3], epsabs=1e-5)[0]
+        big = tm.draw_sample(200000)
+        frac = float(np.mean((big[:, 0] >= box[0]) & (big[:, 0] <= box[1]) & (big[:, 1] >= box[2]) & (big[:, 1] <= box[3])))
+        eps_box = math.sqrt(math.log(2 / 1e-12) / (2 * len(big)))
+        notes.setdefault("box_integral_vs_sample", []).append([round(tot, 5), round(frac, 5)])
+        if abs(tot - frac) > eps_box + 2e-3:
+            return ({"clause": "integral", "getter": getter}, "pdf integrates to %r over the box %r but a fraction %r of the model's samples lies there" % (tot, box, frac))
     # a model with random_state set reproduces its Monte-Carlo quantiles exactly, call after call (as IFORMContour uses them)
     pq, gq = np.array([0.3, 0.95]), np.array([1.0, 2.5])
     with warnings.catch_warnings():
